@@ -210,7 +210,7 @@ def sub_wf(s):
             return False
     if k == "ITS" and s["inv"] and (s["sec"], s["frac"]) != (U32MAX, U32MAX):
         return False
-    if k == "IREPLY" and (s["m"] or s["multi"]):
+    if k == "IREPLY" and s["multi"] and not s["m"]:
         return False
     return True
 
@@ -516,7 +516,7 @@ def gen_sub(r, kind=None, wf=True, big=False):
     elif k == "ISRC":
         s.update(version=r.bytes(2), vendor=r.bytes(2), prefix=r.bytes(12))
     elif k == "IREPLY":
-        m = (not wf) and r.chance(1, 2)
+        m = r.chance(1, 3)
         s.update(m=m, uni=gen_locs(r), multi=gen_locs(r) if (m or (not wf and r.chance(1, 2))) else [])
     elif k == "ITS":
         inv = r.chance(1, 3)
@@ -700,13 +700,30 @@ DW1_EXEMPLAR = bytes.fromhex("52545053020309080303030303030303030303031201200001
                              "00ffffffff02000000000000c003000000")
 
 
+DW4_EXEMPLAR = bytes.fromhex("525450530203090803030303030303030303030306011c000102030406070809ffffff7fffffffff02000000000000c001000000")
+DW3_PROBE = bytes.fromhex("5254505302030114000000000000000000000000" + "0f01040002000000" * 2 + "0f01040001000000" * 3 + "0f01040000000000" * 3)
+DW2_PROBE = "rt H:0203:0908:030303030303030303030303 IREPLY,1,-,1:7400:00000000000000000000000000000000"
+
+
 def model_suffix(ctx):
-    """'' = compare with the model of the decoder as it is (`decode`), 'fix' = with the model of the decoder with
-    fixes/D5.patch (`decodeFixed`; ops decfix / decxfix / rtfix).  Chosen by probing the implementation with the
-    exemplars of D5 and D-wire-1: once the repository rejects both instead of panicking, the fixed model is the
-    transcription of the code (and D5 / D-wire-1 must be closed in known_findings.json)."""
+    """op suffix `@<letters>` telling the model which repairs the tree under test contains, found by probing the
+    implementation with the exemplar of each finding: `5` = D5/D-wire-1 (bdfece3: both exemplars rejected instead of
+    panicking), `e` = fixes/D-wire-3.patch (overlapping INFO_REPLY locators no longer decoded), `a` =
+    fixes/D-wire-4.patch (the set whose accessor overflows is rejected), `m` = fixes/D-wire-2.patch (INFO_REPLY
+    multicast flag written).  The model variant selected this way is the transcription of that tree; a finding
+    whose letter is present must be `fixed` in known_findings.json, one whose letter is absent `open`."""
     from vlib.core import run_lines, harness_bin
-    rc, out, _ = run_lines([harness_bin("wire")], ["dec " + D5_EXEMPLAR.hex(), "dec " + DW1_EXEMPLAR.hex()], timeout=60)
-    fixed = rc == 0 and len(out) == 2 and all(o.startswith("ok") for o in out)
-    ctx.count("model-" + ("with-D5-patch" if fixed else "as-is"))
-    return "fix" if fixed else ""
+    rc, out, _ = run_lines([harness_bin("wire")], ["dec " + D5_EXEMPLAR.hex(), "dec " + DW1_EXEMPLAR.hex(),
+                                                   "dec " + DW3_PROBE.hex(), "dec " + DW4_EXEMPLAR.hex(), DW2_PROBE], timeout=60)
+    letters = ""
+    if rc == 0 and len(out) == 5:
+        if out[0].startswith("ok") and out[1].startswith("ok"):
+            letters += "5"
+        if out[2].startswith("ok") and ":" not in out[2].split(" ", 2)[-1].replace("H:", "", 1).split(" ", 1)[-1] and "IREPLY,0,-,-" in out[2]:
+            letters += "e"
+        if out[3].startswith("ok") and "!" not in out[3]:
+            letters += "a"
+        if "IREPLY,1," in out[4]:
+            letters += "m"
+    ctx.count("model@" + (letters or "orig"))
+    return "@" + letters if letters else ""
